@@ -893,6 +893,45 @@ def arguments_of_temporaries(fnode):
     return changed
 
 
+def tests_of_temporaries(fnode):
+    """t = E; if t: ..   (or `if not t:`)   with t a plain local bound once and read once - in that test -   ->   if E: ..
+    (the inverse of `give the condition a name`; same conditions as for arguments)"""
+    stores, loads = {}, {}
+    for n in ast.walk(fnode):
+        if isinstance(n, ast.Name):
+            d = stores if isinstance(n.ctx, (ast.Store, ast.Del)) else loads
+            d[n.id] = d.get(n.id, 0) + 1
+    a = fnode.args
+    params = {p.arg for p in a.posonlyargs + a.args + a.kwonlyargs} | ({a.vararg.arg} if a.vararg else set()) | ({a.kwarg.arg} if a.kwarg else set())
+    declared = {x for n in ast.walk(fnode) if isinstance(n, (ast.Global, ast.Nonlocal)) for x in n.names}
+    nested = {x.id for n in ast.walk(fnode) if n is not fnode and isinstance(n, (ast.FunctionDef, ast.AsyncFunctionDef, ast.Lambda)) for x in ast.walk(n) if isinstance(x, ast.Name)}
+    changed = False
+    for owner in ast.walk(fnode):
+        for fld in ("body", "orelse", "finalbody"):
+            lst = getattr(owner, fld, None)
+            if not (isinstance(lst, list) and lst and isinstance(lst[0], ast.stmt)):
+                continue
+            k = 1
+            while k < len(lst):
+                st, pr = lst[k], lst[k - 1]
+                if isinstance(st, ast.If) and isinstance(pr, ast.Assign) and len(pr.targets) == 1 and isinstance(pr.targets[0], ast.Name):
+                    x = pr.targets[0].id
+                    t = st.test
+                    inner = t.operand if isinstance(t, ast.UnaryOp) and isinstance(t.op, ast.Not) else t
+                    if isinstance(inner, ast.Name) and inner.id == x and stores.get(x) == 1 and loads.get(x) == 1 and x not in params | declared | nested \
+                            and not isinstance(pr.value, (ast.Constant, ast.Name)) \
+                            and not any(isinstance(y, (ast.Yield, ast.YieldFrom, ast.Await, ast.NamedExpr)) for y in ast.walk(pr.value)):
+                        if inner is t:
+                            st.test = pr.value
+                        else:
+                            t.operand = pr.value
+                        del lst[k - 1]
+                        changed = True
+                        continue
+                k += 1
+    return changed
+
+
 def unelse_after_exit(fnode):
     """if c: ..; <return / raise / continue / break>  else: B     ->   if c: ..; <exit>   followed by B
     One shape for `the other case`: an arm that leaves needs no else (elif chains are unfolded arm by arm)."""
@@ -909,7 +948,17 @@ def unelse_after_exit(fnode):
             if isinstance(st, ast.Try):
                 for h in st.handlers:
                     h.body = block(h.body)
-            if isinstance(st, ast.If) and st.orelse and st.body and isinstance(st.body[-1], (ast.Return, ast.Raise, ast.Continue, ast.Break)):
+            EXIT = (ast.Return, ast.Raise, ast.Continue, ast.Break)
+            if isinstance(st, ast.If) and st.orelse and st.body and not (len(st.orelse) == 1 and isinstance(st.orelse[0], ast.If)):
+                # which arm comes first does not matter: `if not c: B else: A` is `if c: A else: B`.  One order: the arm that leaves comes
+                # first; when both or neither leave, the test carries no leading `not`
+                b_exit, e_exit = isinstance(st.body[-1], EXIT), isinstance(st.orelse[-1], EXIT)
+                negated = isinstance(st.test, ast.UnaryOp) and isinstance(st.test.op, ast.Not)
+                if (e_exit and not b_exit) or (b_exit == e_exit and negated):
+                    st.test = st.test.operand if negated else ast.copy_location(ast.UnaryOp(op=ast.Not(), operand=st.test), st.test)
+                    st.body, st.orelse = st.orelse, st.body
+                    changed = True
+            if isinstance(st, ast.If) and st.orelse and st.body and isinstance(st.body[-1], EXIT):
                 rest = st.orelse
                 st.orelse = []
                 out.append(st)
@@ -1086,6 +1135,7 @@ def apply_synonyms(repo):
     respell_calls(repo)
     for f in repo.funcs.values():
         before = ast.dump(f.node)
+        tests_of_temporaries(f.node)
         unelse_after_exit(f.node)
         arguments_of_temporaries(f.node)
         return_of_temporary(f.node)
